@@ -958,4 +958,4 @@ PARTS = {"main": run_case, "grid": run_case}
 def main(ctx):
     ctx.run_replays(PARTS)
     ctx.enumerate(grid_cases(), run_case, name="grid", exhaustive=False)
-    ctx.explore(case_s(), run_case, ctx.n(1000, 60000), name="main")
+    ctx.explore(case_s(), run_case, ctx.n(1000, 300000), name="main")
